@@ -2050,6 +2050,112 @@ def pointer_containers(rng):
     return cases
 
 
+F32_RANGE_ON_TEXT = [False]     # set by regen(): float32 fields read from strings are range-checked on the text (F32)
+DECIMAL_BOUNDS = ["0.1", "0.3", "2.7", "0.7", "1.1", "0.2", "-0.1", "-2.7", "100.01", "1e-7", "0.30000000000000004", "1e23",
+                  "0.5", "3", "16777217", "9007199254740993"]
+
+
+def decimal_bounds(rng):
+    """range bounds and supplied numbers that are decimal fractions without a binary form: the
+    supplied text equal to the bound (and other spellings of the same number), one float64 step
+    below / above, one decimal digit below / above; both ends, open and closed; every source kind
+    and numeric kind.  The declared bound is a decimal text: inside / outside is exact decimal
+    comparison; go-zero compares float64(value) with float64(bound), which is the same thing unless
+    two DIFFERENT decimals round to one float64 (a near tie: not generated)."""
+    import math
+    cases = []
+
+    def f64(txt):
+        return float(txt)
+
+    def spellings(b):
+        d = Decimal(b)
+        out = [b]
+        t = format(d, "f") if abs(d.as_tuple().exponent) < 30 else None
+        if t and "." in t:
+            out.append(t + "0")
+        elif t:
+            out.append(t + ".0")
+        sign, digits, exp = d.as_tuple()
+        out.append(("-" if sign else "") + "".join(map(str, digits)) + "e" + str(exp))      # 3e-1
+        return [x for x in dict.fromkeys(out) if Gen.json_ok(x)]
+
+    def neighbours(b):
+        x = f64(b)
+        d = Decimal(b)
+        res = [repr(math.nextafter(x, math.inf)), repr(math.nextafter(x, -math.inf))]
+        # one unit in the last written digit (or in the next one) below / above
+        q = Decimal(1).scaleb(d.as_tuple().exponent)
+        for step in (q, q / 10):
+            for c in (d - step, d + step):
+                txt = format(c, "f") if abs(c.as_tuple().exponent) < 30 else str(c)
+                res.append(txt)
+        out = []
+        for v in res:
+            if "e" in v and not Gen.json_ok(v):
+                v = v.replace("e+", "e")
+            if not Gen.json_ok(v):
+                continue
+            if Decimal(v) != d and f64(v) == x:
+                continue            # near tie: two decimals, one float64
+            out.append(v)
+        return list(dict.fromkeys(out))
+
+    sources = ["json", "key", "yaml", "toml", "httpx-json", "jsonmap", "form", "path", "header", "httpx-form", "json-string", "key-native"]
+    kinds = ["float64", "float32", "int", "int64", "uint", "uint64", "int8"]
+    n = 0
+    for b in DECIMAL_BOUNDS:
+        vals = [(v, "same") for v in spellings(b)] + [(v, "near") for v in neighbours(b)]
+        for end in ("l", "r"):
+            for incl in (True, False):
+                far = (abs(Decimal(b)) + 1) * 1000
+                other = (Decimal(b) + far) if end == "l" else (Decimal(b) - far)
+                other = fmt_dec(other) if abs(other.as_tuple().exponent) < 30 else "%e" % other
+                for open_other in (False, True):
+                    rg = {"li": incl if end == "l" else True, "ri": incl if end == "r" else True,
+                          "l": b if end == "l" else (None if open_other else other),
+                          "r": b if end == "r" else (None if open_other else other)}
+                    for v, how in vals:
+                        n += 1
+                        if any(x is not None and Decimal(v) != Decimal(x) and f64(v) == f64(x) for x in (rg["l"], rg["r"])):
+                            continue        # near tie with a bound
+                        src = sources[n % len(sources)]
+                        kind = kinds[(n // 3) % len(kinds)] if Decimal(v) == Decimal(v).to_integral_value() and "e" not in v and "." not in v \
+                            else ("float64" if n % 3 else "float32")
+                        strsrc = src in ("form", "path", "header", "httpx-form", "json-string")
+                        if kind == "float32":
+                            if strsrc and not F32_RANGE_ON_TEXT[0]:
+                                kind = "float64"
+                            elif len(Decimal(v).normalize().as_tuple().digits) > 6:
+                                kind = "float64"        # the stored float32 would not print back as the literal
+                        if kind in BITS and (not (-2 ** 63 <= int(v) < 2 ** 63) or (kind in UINT_KINDS and int(v) < 0) or
+                                             (kind == "int8" and not -128 <= int(v) < 128)):
+                            kind = "float64"
+                        if kind == "float64" and len(Decimal(v).normalize().as_tuple().digits) > 15 and Decimal(v) != Decimal(repr(f64(v))):
+                            continue        # the stored float64 would not print back as the literal
+                        if kind in BITS and abs(int(v)) >= 2 ** 53:
+                            # beyond 2^53 integers are compared on their float64 roundings: near ties by construction
+                            if f64(v) != int(v) or f64(b) != Decimal(b):
+                                continue
+                        mode, o = src, O(range=dict(rg), opt=n % 5 == 0)
+                        if src == "json-string":
+                            mode, o["str"], doc = rng.choice(["json", "key"]), True, dobj([("a", ds(v))])
+                        elif src == "key-native":
+                            if kind != "float64" or not Gen.native_ok("float64", v):
+                                continue
+                            mode, doc = "key", dobj([("a", {"g": ["float64", v]})])
+                        elif strsrc:
+                            doc = dobj([("a", ds(v))])
+                        else:
+                            doc = dobj([("a", dn(v))])
+                            if src in ("yaml", "toml") and not tame(doc):
+                                mode = "json"
+                        t = P(kind) if n % 4 else Ptr(P(kind))
+                        cases.append(finish({"mode": mode, "type": St(F("a", t, o)), "doc": doc, "intent": "decimal-bounds-" + how}))
+    rng.shuffle(cases)
+    return cases
+
+
 def depchains(rng):
     """optional=dep / optional=!dep chains and cycles over three fields, self-dependencies,
     dependencies on keys that no field has, on dotted keys, on "-"; every subset of supplied fields"""
@@ -2304,6 +2410,7 @@ class C08(Property):
         global MAX_FORM_VALUES, MAX_BODY, PARSE_ORDER
         c, notes = c08consts.regen()
         DEFAULT_MEMO_FIXED[0] = bool(c["default_memo_per_reading"])
+        F32_RANGE_ON_TEXT[0] = bool(c["f32_range_on_text"])
         import os
         EMPTY_MAP_PRIVATE[0] = bool(c["empty_map_private"]) or os.environ.get("C08_FORCE_SCRIBBLE") == "1"
         MAX_FORM_VALUES = c["maxFormParamCount"]
@@ -2391,6 +2498,7 @@ class C08(Property):
             cases += zeros(rng)
             cases += slice_defaults(rng)
             cases += depchains(rng)
+            cases += decimal_bounds(rng)[:1200 if not big else 100000]
             cases += pointer_containers(rng)
             cases += slice_strings(rng)
             cases += header_keys(rng)
